@@ -12,13 +12,51 @@ import (
 )
 
 type (
-	Cond      = sync.Cond
 	WaitGroup = sync.WaitGroup
 	Locker    = sync.Locker
 	Pool      = sync.Pool
 )
 
-func NewCond(l Locker) *Cond { return sync.NewCond(l) }
+// Cond wraps sync.Cond (created lazily around L, so that the composite literal Cond{L: l} keeps
+// working): a scheduling point before a thread starts to wait - it has made its last check of the
+// condition and has not parked yet, the window in which a signal sent without the lock is lost -
+// and before every Signal / Broadcast.
+type Cond struct {
+	L  Locker
+	mu sync.Mutex
+	c  *sync.Cond
+}
+
+func NewCond(l Locker) *Cond { return &Cond{L: l} }
+
+func (c *Cond) inner() *sync.Cond {
+	// the wrapper's own lock is invisible to the race detector: it must not order threads that the
+	// program's own synchronisation does not order
+	sched.HideBegin()
+	c.mu.Lock()
+	if c.c == nil || c.c.L != c.L {
+		c.c = sync.NewCond(c.L)
+	}
+	r := c.c
+	c.mu.Unlock()
+	sched.HideEnd()
+	return r
+}
+
+func (c *Cond) Wait() {
+	sched.Yield()
+	c.inner().Wait()
+}
+
+func (c *Cond) Signal() {
+	sched.Yield()
+	c.inner().Signal()
+}
+
+func (c *Cond) Broadcast() {
+	sched.Yield()
+	c.inner().Broadcast()
+}
 
 type Mutex struct {
 	mu sync.Mutex
